@@ -47,6 +47,13 @@ _dispatch_verif_timeout(dispatch_time_t when)
 	return _dispatch_timeout(when);
 }
 
+/* the absolute wall-clock deadline the POSIX semaphore back end waits until */
+DV_EXPORT uint64_t
+_dispatch_verif_time_since_epoch(dispatch_time_t when)
+{
+	return _dispatch_time_nanoseconds_since_epoch(when);
+}
+
 /* _dispatch_timer_unote_compute_missed on a scratch timer */
 DV_EXPORT unsigned long
 _dispatch_verif_compute_missed(uint64_t *target, uint64_t *deadline,
